@@ -13,6 +13,7 @@ KNOB_SETS = [
     {},
     {"p_segments": 0.0, "p_import": 0.0, "top_stmts": 20},                       # single segment, dense references
     {"p_segments": 1.0, "max_segments": 3, "p_relocated": 0.8},                 # multi-segment, relocated
+    {"p_segments": 1.0, "max_segments": 3, "p_relocated": 0.5, "p_nested_segment": 0.6, "p_macro": 0.8},   # segment blocks inside scopes, loops and macros
     {"p_macro": 1.0, "max_macros": 3, "p_loop": 1.0, "p_if": 1.0},               # constructs
     {"p_macro": 1.0, "max_macros": 3, "p_if": 1.0, "dead_defs_invisible": True, "p_macro_name_clash": 0.2},
     {"p_segments": 0.0, "p_import": 0.0, "top_stmts": 20, "p_label_const": 0.5},        # constants/variables that follow labels   # names past untaken branches, macro-named labels
